@@ -43,14 +43,15 @@ def shards(tier, seed):
 
 
 class Case:
-    def __init__(self, run, conns, newcomer, reconnect_due, force, wait_timeout, stall_seed=None):
-        """conns: list of (state, reaction)"""
+    def __init__(self, run, conns, newcomer, reconnect_due, force, wait_timeout, stall_seed=None, listen=1):
+        """conns: list of (state, reaction); listen: number of addresses the node listens on (12 = two addresses,
+        over both transports)"""
         from vf.simnet.world import World, REALM
         from vf.simnet import msgs as M
         self.M, self.REALM = M, REALM
         self.run = run
         self.spec = dict(conns=[list(c) for c in conns], newcomer=newcomer, reconnect_due=reconnect_due,
-                         force=force, wait_timeout=wait_timeout, stall_seed=stall_seed)
+                         force=force, wait_timeout=wait_timeout, stall_seed=stall_seed, listen=listen)
         peers = []
         for i, (st, _) in enumerate(conns):
             out = st in ("connecting", "await_cea")
@@ -60,8 +61,9 @@ class Case:
         if reconnect_due:
             peers.append({"name": "lost.verif.example", "persistent": True, "reconnect_wait": 2, "ip": "10.1.0.77"})
         peers.append({"name": "newcomer.verif.example"})
-        self.w = World(dict(peers=peers, apps=[{"tag": "a4", "id": 4, "kind": "threading",
-                                                 "peers": [p["name"] for p in peers]}],
+        ips = ("10.0.0.1", "10.0.0.2", "10.0.0.3")[:2 if listen == 12 else listen]
+        self.w = World(dict(peers=peers, ips=ips, both=listen == 12,
+                            apps=[{"tag": "a4", "id": 4, "kind": "threading", "peers": [p["name"] for p in peers]}],
                             node={"idle_timeout": 10 ** 6, "dwa_timeout": 10 ** 6, "cea_timeout": 10 ** 6,
                                   "cer_timeout": 10 ** 6, "wakeup_interval": 1}))
         self.h, self.node = self.w.h, self.w.node
@@ -87,7 +89,7 @@ class Case:
                 if st == "await_cea" and socks and socks[-1].peer is not None:
                     self.sp[i] = socks[-1].peer
                 continue
-            sp = h.inbound(ip=f"10.1.0.{i + 1}", port=50000 + i)
+            sp = h.inbound(ip=f"10.1.0.{i + 1}", port=50000 + i, listener=i + 1)    # spread over the listeners
             h.settle()
             self.sp[i] = sp
             if st == "await_cer":
@@ -254,8 +256,8 @@ class Case:
                             if cer:
                                 sp.send(M.cea(name, self.REALM, auth=[4], hbh=cer[-1].h.hbh, e2e=cer[-1].h.e2e))
                                 self.run.cov["handshakes_completed_during_stop"] += 1
-                if spec["newcomer"] and newcomer is None and it == 2 and h.listeners and not h.listeners[0].closed:
-                    newcomer = h.inbound(ip="10.1.0.88", port=58888)
+                if spec["newcomer"] and newcomer is None and it == 2 and h.listeners and not h.listeners[-1].closed:
+                    newcomer = h.inbound(ip="10.1.0.88", port=58888, listener=len(h.listeners) - 1)
                     newcomer.send(M.cer("newcomer.verif.example", self.REALM, auth=[4], hbh=1, e2e=99))
                 if newcomer is not None:
                     newcomer.drain()
@@ -504,14 +506,14 @@ def run_shard(spec):
     for i, c in enumerate(cases):
         if i % spec["parts"] != spec["part"]:
             continue
-        run.one(*c, None)
+        run.one(*c, None, (1, 2, 3, 12)[i // spec["parts"] % 4])
         if i % 2 == 0:
             run.one(*c, rng.getrandbits(30))     # the same case with threads stalled at shared-table lines
     for _ in range(spec["n"] // 6):
         n = rng.choice([1, 2, 3, 3])
         conns = [(rng.choice(STATES), rng.choice(REACTIONS)) for _ in range(n)]
         run.one(conns, rng.random() < 0.5, rng.random() < 0.3, rng.random() < 0.3, rng.choice([2, 4, 8, 30]),
-                rng.choice([None, rng.getrandbits(30)]))
+                rng.choice([None, rng.getrandbits(30)]), rng.choice([1, 1, 2, 3, 12]))
     return run.result()
 
 
@@ -520,7 +522,7 @@ def replay(obj):
         return run_freerun({"name": "replay", "seed": 0, "n": 24})
     run = Run()
     run.one([tuple(c) for c in obj["conns"]], obj["newcomer"], obj["reconnect_due"], obj["force"], obj["wait_timeout"],
-            obj.get("stall_seed"))
+            obj.get("stall_seed"), obj.get("listen", 1))
     return run.result()
 
 
